@@ -271,13 +271,25 @@ def main(inp, outp):
             continue
         res["evaluations"] += 1
         res["traces"] += 1
+        # one case in five names the object through the keyword arguments of the writer (name=, cospar_id=), which take precedence
+        # over the attributes the object carries (set to decoys here); a single ephemeris or state only
+        idkw = {}
+        if ci % 5 == 4 and t in ("opm", "oem", "omm") and not isinstance(obj, (list, tuple)):
+            idkw = {"name": getattr(obj, "name", None), "cospar_id": getattr(obj, "cospar_id", None)}
+            try:
+                if None in idkw.values():
+                    raise ValueError("no identification on the object")
+                obj.name, obj.cospar_id = "DECOY", "1999-999Z"
+                data["identification"] = "name= / cospar_id= keyword arguments (decoy attributes on the object)"
+            except Exception:
+                idkw = {}
         try:
             if path["src"] == "config":
                 config["io"] = {"ccsds_default_format": path["f1"]}
-                txt1 = door_dumps(obj, fd1)
+                txt1 = door_dumps(obj, fd1, **idkw)
                 config["io"] = {}
             else:
-                txt1 = door_dumps(obj, fd1, fmt=path["f1"])
+                txt1 = door_dumps(obj, fd1, fmt=path["f1"], **idkw)
             isxml = txt1.lstrip().startswith("<")
             clause("the encoding follows the fmt argument / the configured default", isxml == (path["f1"] == "xml"), f"ccsds/{t}-format",
                    f"asked {path['f1']} via {path['src']}, got {'xml' if isxml else 'kvn'}", data)
